@@ -92,8 +92,10 @@ def contract(kind, n, noise):
 
 
 for it in range(N):
-    for kind in ("generic", "planar", "collinear", "mirror"):
+    for kind in ("generic", "planar", "collinear", "mirror", "two atoms", "one atom"):
         n = int(rng.integers(3, 9)) if kind != "mirror" else 2 * int(rng.integers(2, 5))
+        if kind in ("two atoms", "one atom"):
+            n = 2 if kind == "two atoms" else 1
         for noise in (0.0, 0.3):
             R.check("superimpose: proper rotation, optimal RMSD, apply == matrix", f"superimpose {kind} noise={noise}",
                     {"kind": kind, "n": n, "noise": noise, "draw": it}, lambda kind=kind, n=n, noise=noise: contract(kind, n, noise))
